@@ -320,7 +320,7 @@ def run(chk):
                 chk.violation("echo:%s" % res.violation, "real echo run violates %s: %s" % (res.violation, json.dumps(row)[:500]),
                               {"mode": "echo", "line": row})
                 echo_stats["rejected"] += 1
-            m = re.search(r'<<"BAD", \{(.*?)\}>>', res.out, re.S)
+            m = re.search(r'<< ?"BAD",\s*\{(.*?)\}\s*>>', res.out, re.S)
             if not m:
                 raise vlib.MachineryError("EchoTrace %s: no result register:\n%s" % (tag, res.out[-1200:]))
             bad = [int(x) for x in re.findall(r"\d+", m.group(1))]
